@@ -10940,7 +10940,7 @@ tsk_table_collection_check_tree_integrity(const tsk_table_collection_t *self)
          * since otherwise we would have added a different edge twice,
          * and so hit the error above. */
         e = O[k];
-        if (edge_right[e] != sequence_length) {
+        if (edge_right[e] != sequence_length || used_edges[e] != 1) {
             ret = tsk_trace_error(TSK_ERR_TABLES_BAD_INDEXES);
             goto out;
         }
